@@ -317,6 +317,8 @@ impl EdgeLocate for FitRadiusEdge {
         let mut iterations = 0;
 
         while iterations < 1000 {
+            #[cfg(feature = "verif")]
+            crate::verif::tick();
             // We're going to keep on advancing until what's left is all within the tolerance of the
             // last inscribed circle.
             let station = working_stations
